@@ -262,9 +262,9 @@ func sortInts(a []int) {
 func TestC08ConcurrentBuilds(t *testing.T) {
 	st := newStats("C08")
 	defer st.write()
-	rounds := 12
+	rounds := 48 // (12 until session 2: on a machine with a load of 60 the builds hardly overlapped)
 	if thorough() {
-		rounds = 120
+		rounds = 240
 	}
 	for round := 0; round < rounds; round++ {
 		if err := concurrentRound(round, st); err != nil {
